@@ -31,6 +31,12 @@ M = {
    "\tsyntKind := getPunctKind(t.value)\n\tif t.kind != tokenPunct || (syntKind != punctPlus && syntKind != punctMinus) {\n\t\treturn nil, p.errorf(`expected \"+\" or \"-\"`)"),
   ("parser-error-at-token-end", "dbc/parser.go", "p.filename, p.currToken.startLine, p.currToken.startCol, msg, val)", "p.filename, p.currToken.endLine, p.currToken.endCol, msg, val)"),
   ("parser-error-column-off-by-one", "dbc/parser.go", "p.filename, p.currToken.startLine, p.currToken.startCol, msg, val)", "p.filename, p.currToken.startLine, p.currToken.startCol+1, msg, val)"),
+  ("parser-stale-token-position-at-eof", "dbc/parser.go", "\tp.currToken = token\n\n\treturn token", "\tif !token.isEOF() || p.currToken == nil {\n\t\tp.currToken = token\n\t}\n\n\treturn token"),
+  ("parser-error-at-previous-token", "dbc/parser.go",
+   ["\tcurrToken *token\n", "\tp.currToken = token\n\n\treturn token", "p.filename, p.currToken.startLine, p.currToken.startCol, msg, val)"],
+   ["\tcurrToken *token\n\tprevTok   *token\n", "\tp.prevTok = p.currToken\n\tif p.prevTok == nil {\n\t\tp.prevTok = token\n\t}\n\tp.currToken = token\n\n\treturn token", "p.filename, p.prevTok.startLine, p.prevTok.startCol, msg, val)"]),
+  ("scanner-cr-resets-column", "dbc/scanner.go", "\tif ch == '\\n' {\n\t\ts.currLine++\n\t\ts.currCol = 0\n\t}", "\tif ch == '\\n' {\n\t\ts.currLine++\n\t\ts.currCol = 0\n\t}\n\tif ch == '\\r' {\n\t\ts.currCol = 0\n\t}"),
+  ("scanner-column-counts-bytes", "dbc/scanner.go", "\ts.currCol++\n", "\ts.currCol += utf8.RuneLen(ch)\n"),
   ("scanner-tab-width-4", "dbc/scanner.go", "\t\ts.currCol += 4\n", "\t\ts.currCol += 3\n"),
   ("scanner-unclosed-string-is-eof", "dbc/scanner.go", "\t\t\treturn s.emitErrorToken(`unclosed string, missing closing \"`)", "\t\t\treturn s.emitToken(tokenEOF)"),
   ("parser-valtable-loop-no-progress", "dbc/parser.go", "\tvalID, err := p.parseUint(t.value)\n\tif err != nil {\n\t\treturn nil, p.errorf(\"cannot parse value description id as uint\")\n\t}",
@@ -61,9 +67,12 @@ def main():
                 results.append((name, "could not apply", "")); continue
         else:
             f = os.path.join(WT, path); s = open(f).read()
-            if s.count(old) < 1:
-                results.append((name, "pattern not found", "")); continue
-            open(f, "w").write(s.replace(old, new, 1))
+            pairs = list(zip(old, new)) if isinstance(old, list) else [(old, new)]
+            if any(s.count(o) < 1 for o, _ in pairs):
+                results.append((name, "pattern not found", "")); print(name, "pattern not found"); continue
+            for o, n in pairs:
+                s = s.replace(o, n, 1)
+            open(f, "w").write(s)
         rc, out = sh(["go", "test", "-count=1", "./..."], cwd=WT)
         tests = "suite passes" if rc == 0 else "SUITE FAILS (mutant not admissible)"
         env = dict(ENV, VERIF_REPO=WT)
